@@ -563,8 +563,15 @@ def check_net2(H, spec, order, kept, mols, where):
     for x in list(sp)[:6] + list(spec)[:6] + ["~nope"]:
         if (x in H) != (x in sp or x in spec):
             fails.append("__contains__(%r) (%s)" % (x, where))
-    if repr(H) != _ref_repr(order, spec, sp, H.species_to_mol):
-        fails.append("repr differs from the stored state (%s): %r" % (where, repr(H)))
+    # __repr__ is a derived view; its FORMAT is not part of the property, so only format-independent facts are demanded:
+    # it mentions every stored reaction id and every species, and it is a function of the state (an equal network
+    # rebuilt by deep copy prints the same; today's format is additionally compared and reported under its own clause
+    # only when the text also fails one of the format-independent facts)
+    rp = repr(H)
+    missing = [x for x in list(spec) + sorted(sp) if x not in rp]
+    if missing or rp != repr(_copy.deepcopy(H)):
+        fails.append("repr is not a view of the stored state (%s): missing %r, today's format would be %r, got %r"
+                     % (where, missing, _ref_repr(order, spec, sp, H.species_to_mol), rp))
     return fails
 
 
@@ -887,7 +894,7 @@ def mutators():
     ms += [["add", 0, P(("A", 1)), P(("F", 1)), "r", None], ["add", 0, P(("A", 1)), P(("F", 1)), "r", "r_2"],
            ["add", 0, P(("A", 1)), P(("F", 1)), "r", "r_1"], ["add", 0, P(("A", 1)), P(("F", 1)), "q", ""],
            ["add", 0, P(("x", 1)), P(("r_2", 10)), "r_2", None], ["add", 0, [], [], "r", None],
-           ["add", 0, P(("A", 0)), P(("B", -2)), "r", "y"], ["add", 1, P(("B", 1)), P(("r_2", 1)), "r", None],
+           ["add", 0, P(("A", 0)), P(("B", -2)), "r", "y"], ["add", 0, P(("A", 1000)), P(("B", 4321)), "r", None], ["add", 1, P(("B", 1)), P(("r_2", 1)), "r", None],
            ["addany", 0, ["map", P(("", 2), (7, 2), ("B", "3"), ("t", True), ("n", 0))], ["iter", [["p", "", 1], ["l", ""], ["l", "A"]]], None, None, "kw"],
            ["addany", 0, ["iter", [["l", "A"], ["p", "A", 2], ["l", "A"], ["p", "Q", -1]]], ["map", []], "", "r_7", "pos"],
            ["addany", 0, ["iter", []], ["iter", [["l", ""]]], "r", None, "kw"],
@@ -971,6 +978,12 @@ def _rand_hist2(rng, maxlen, n):
             ops.append(rng.choice([["poolnew", k, items()], ["pooledit", k, rng.choice(sp), rng.choice([0, 1, 4, 11])],
                                    ["poolupdate", k, items()],
                                    ["addpool", i, rng.randrange(2), rng.randrange(2), rng.choice(rules), rng.choice([None] + ids)]]))
+        elif z < 0.83:
+            ops.append(["mergeraw", i, [[rng.choice([None, None] + ids), rng.choice(["r", "q", "", "r_1"]), items(), items()]
+                                        for _ in range(rng.randint(0, 3))], rng.random() < 0.5])
+        elif z < 0.87:
+            ops.append([rng.choice(["sideset", "sideincr"]), i, rng.choice(ids), rng.random() < 0.5, rng.choice(sp),
+                        rng.choice([1, 2, 5, 11, 0, -1, -3])])
         else:
             ops.append(rng.choice(queries(i)))
     return ops
@@ -988,8 +1001,32 @@ def big_case():
     return dict(kind="h2-big", n=2, k=0, views=False, skip=108, ops=ops)
 
 
+SCRIPTS = [
+    # a species named like a generated id is pruned; the next generated id IS that name; the old label table is re-applied
+    [["rmrxn", 0, "r_1"], ["add", 0, P(("A", 1)), P(("B", 1)), "r", None], ["q", 0, "contains", "r_2"],
+     ["molmap", 0, P(("r_2", "lab"), ("A", 0)), False, False], ["q", 0, "getmol", "r_2"], ["molmap", 0, P(("r_2", "lab")), True, False],
+     ["mol", 0, "r_2", "lab"], ["q", 0, "getedge", "r_2"], ["rmsp", 0, "r_2", True], ["q", 0, "nbrs", "r_2"]],
+    # matrices asked before and after in-place coefficient edits, stripping with a kept species, re-adding it
+    [["q", 0, "inc", False, "kw"], ["q", 0, "inc", True, "kw"], ["sideset", 0, "r_1", True, "A", 5], ["q", 0, "inc", False, "stoich"],
+     ["rmsp", 0, "B", False], ["q", 0, "inc", False, "kw"], ["q", 0, "inc", True, "default"], ["add", 0, P(("B", 3)), P(("D", 1)), "r", None],
+     ["q", 0, "inc", False, "kw"], ["q", 0, "splist"], ["q", 0, "len"]],
+    # copy, then label / structure edits of the original; the copy answers as before; then the other way round
+    [["copy", 0, 1], ["mol", 0, "A", "new"], ["molmap", 0, [], True, True], ["q", 1, "getmol", "A"], ["rmsp", 0, "A", True],
+     ["q", 1, "paths", "C", "B", 4, None, "kw"], ["q", 1, "nbrs", "A"], ["mol", 1, "C", 0], ["q", 0, "getmol", "C"], ["q", 1, "getmol", "C"]],
+    # merge (default prefix), then edits of the source; the target keeps its copies; merged ids skip look-alikes
+    [["merge", 1, 0, True, "default"], ["rmsp", 0, "B", True], ["rmrxn", 0, "x"], ["q", 1, "iter", "edge_list"], ["q", 1, "len"],
+     ["merge", 1, 1, False], ["q", 1, "len"], ["q", 1, "inc", False, "kw"]],
+]
+
+
 def gen_cases2(tier, rng):
     cases = []
+    for sc in SCRIPTS:
+        for vw in (False, True):
+            cases.append(dict(kind="h2-script", n=2, k=2, views=vw, skip=len(PRE2) - 1, ops=PRE2 + sc))
+    # every query on a fresh network, after the first add, and after removing it again
+    cases.append(dict(kind="h2-script", n=1, k=0, views=True,
+                      ops=queries(0) + [["add", 0, P(("A", 1)), P(("B", 1)), "", None]] + queries(0) + [["rmrxn", 0, "r_1"]] + queries(0)))
     Q0, M = queries(0), mutators()
     ALL = M + Q0 + queries(1)[:6]
     # (A) surface: every op / option value once after the preamble, observed with and without the derived views
